@@ -607,6 +607,38 @@ func ScriptF14(nextID *int) History {
 	return h
 }
 
+// ScriptZeroUnitProvider: corpus history — a provider record without units. The pool's external depth is twice its units,
+// so adding one base unit of the external token mints 1e18 * 1 / 2e18 = 0 units, yet the record is created. The creator
+// then shrinks the pool below the decommission threshold and the whitelisted account decommissions it: every provider
+// record of the pool must be gone with the pool (or the pool must stay).
+func ScriptZeroUnitProvider(nextID *int) History {
+	u0addr := chain.NewAccount("user0").Addr.String()
+	e := env.New(env.Opts{NUsers: 3, Tokens: []string{"cusdc"}, Transform: func(g *chain.Genesis) { g.Transform = whitelistTransform(u0addr) }})
+	h := History{ID: 9025, Env: e, Desc: map[string]interface{}{"corpus": "provider record with 0 units, then decommission", "tokens": []string{"cusdc"}, "decommission_whitelist": "user0"}}
+	e.BeginBlock()
+	mustOK(e.UpdateRewardsParams(0, 0, 0, "", false), "rewards params")
+	tid := e.DenomID["cusdc"]
+	asset := clptypes.NewAsset("cusdc")
+	u0, u1 := e.Users[0], e.Users[1]
+	id := func(a chain.Account) int64 { return e.AcctID[a.Addr.String()] }
+	n, x := chain.E(18), new(big.Int).Mul(big.NewInt(2), chain.E(18))
+	m1 := clptypes.NewMsgCreatePool(u0.Addr, asset, env.U(n), env.U(x))
+	recTx(&h, nextID, 0, u0, Msg{Tag: 1, Signer: id(u0), A: tid, X: n, Y: x}, &m1)
+	zero, one := big.NewInt(0), big.NewInt(1)
+	m2 := clptypes.NewMsgAddLiquidity(u1.Addr, asset, env.U(zero), env.U(one))
+	recTx(&h, nextID, 1, u1, Msg{Tag: 2, Signer: id(u1), A: tid, X: zero, Y: one}, &m2)
+	m3 := clptypes.NewMsgRemoveLiquidity(u0.Addr, asset, sdk.NewInt(6000), sdk.ZeroInt())
+	recTx(&h, nextID, 2, u0, Msg{Tag: 3, Signer: id(u0), A: tid, X: big.NewInt(6000), Y: zero}, &m3)
+	recBlock(&h, nextID, 3)
+	m4 := clptypes.NewMsgDecommissionPool(u0.Addr, "cusdc")
+	recTx(&h, nextID, 4, u0, Msg{Tag: 8, Signer: id(u0), A: tid}, &m4)
+	// the provider without units tries to leave
+	m5 := clptypes.NewMsgRemoveLiquidity(u1.Addr, asset, sdk.NewInt(10000), sdk.ZeroInt())
+	recTx(&h, nextID, 5, u1, Msg{Tag: 3, Signer: id(u1), A: tid, X: big.NewInt(10000), Y: zero}, &m5)
+	recBlock(&h, nextID, 6)
+	return h
+}
+
 // ScriptDust: two providers, a large external->native swap so that one pool unit is worth less than
 // half a base unit on both sides, then dust removals (1 unit / 1 basis point) — removals that pay nothing.
 func ScriptDust(rng *chain.Rng, hid int, nextID *int) History {
